@@ -151,7 +151,7 @@ def run(rep, tier, seed):
     zoo = models.zoo()
     names = list(zoo)
     if tier == "quick":
-        keep = ["ae_basic", "dae_ts", "fdae_heat", "dae_ts_index", "ae_consts", "ae_trigger", "ae_trigger_smooth"]
+        keep = ["ae_basic", "dae_ts", "fdae_heat", "dae_ts_index", "ae_consts", "ae_trigger", "ae_trigger_smooth", "ae_trigger_builtins"]
         extra = [n for n in names if n not in keep]
         names = keep + list(rng.permutation(extra)[:1])
     tmp = tempfile.mkdtemp(prefix="c03_")
@@ -208,6 +208,34 @@ def run(rep, tier, seed):
             if data is not None:
                 for modname, ref in refsj.items():
                     ncmp += compare("render(numba)->import", modname, ref, data, meta, fails, dict(model=modname, phase="jit"))
+        # the numba backend on an integer-typed state vector of equal values: the same numbers as for the float array, or an error
+        # (x**-2 is 0 in integer arithmetic)
+        try:
+            from Solverz import Model, Var, Eqn, module_printer
+            import importlib
+            mi = Model()
+            mi.x = Var("x", 2.0); mi.z = Var("z", 1.0)
+            mi.f1 = Eqn("f1", mi.x ** (-2) + mi.z - 1); mi.f2 = Eqn("f2", mi.z - 1 / mi.x)
+            eqs_i, y0_i = models.quiet(mi.create_instance)
+            models.quiet(module_printer(eqs_i, y0_i, "c03_intpow", directory=tmp, jit=True).render)
+            if tmp not in sys.path:
+                sys.path.insert(0, tmp)
+            mod_i = models.quiet(importlib.import_module, "c03_intpow")
+            ncmp += 1
+            Ff = np.asarray(mod_i.mdl.F(np.array([2.0, 1.0]), mod_i.mdl.p), dtype=float)
+            try:
+                Fi = np.asarray(mod_i.mdl.F(np.array([2, 1]), mod_i.mdl.p), dtype=float)
+                Ji = mod_i.mdl.J(np.array([2, 1]), mod_i.mdl.p).toarray(); Jf = mod_i.mdl.J(np.array([2.0, 1.0]), mod_i.mdl.p).toarray()
+                if not (close(Fi, Ff) and close(Ji, Jf)):
+                    fails.append((dict(model="f1 = x**-2 + z - 1, f2 = z - 1/x", phase="jit, integer-typed state"),
+                                  f"numba module at y = np.array([2, 1]) returns F = {Fi}, J = {Ji.tolist()}; at the float array of equal values "
+                                  f"F = {Ff}, J = {Jf.tolist()}"))
+            except Exception:  # noqa — refusing integers is fine
+                pass
+        except Exception as ex:  # noqa
+            rep.notes.append(f"integer-state numba probe: {type(ex).__name__}: {str(ex)[:100]}")
+        finally:
+            sys.modules.pop("c03_intpow", None)
         # in-process models built earlier must not have been changed by the models built after them (shared name spaces)
         for label, nd, args, F1 in RETAINED:
             ncmp += 1
